@@ -233,9 +233,17 @@ func c06Exec(scAny any, c *simcheck.Ctx) *simcheck.Violation {
 			return v
 		}
 		loading := map[string]int{}
+		inFlight := 0
 		for _, e := range h.w.events {
-			if e.Kind == "ModuleLoading" {
+			switch e.Kind {
+			case "ModuleLoading":
 				loading[e.Label]++
+				if inFlight > 0 {
+					c.St.Probes["module_started_while_another_was_mid_load"]++
+				}
+				inFlight++
+			case "ModuleLoaded", "ModuleLoadFailed":
+				inFlight--
 			}
 		}
 		h.w.events = nil
